@@ -8,6 +8,8 @@ CONSTANTS
  MaxFaults = 4
  MaxSeeks = 1
  Conc = 8
+ LinkEntries = FALSE
+ Directs = {"none"}
  StoreAnchor = TRUE
  RelNR = TRUE
  FixLeak = TRUE
